@@ -274,3 +274,21 @@ M('C12', 'reclassify-no-length-check', 'classify.py', "    if len(bins) != len(n
 M('C12', 'equal-interval-inf-kept', 'classify.py', "    data = module.where(data == inf, nan, data)\n", "", 'K4')
 T('C12', 'jenks-default-dtype', 'classify.py', "kclass = np.zeros(n_classes + 1, dtype=np.float64)", "kclass = np.zeros(n_classes + 1)")
 T('C12', 'bin-ge0', 'classify.py', "            if val_bin > -1:\n                out[y, x] = new_values[val_bin]", "            if val_bin >= 0:\n                out[y, x] = new_values[val_bin]")
+
+# ------------------------------------------------------------------------------------------------ C16
+M('C16', 'regions-labels-input-dtype', 'zonal.py', "    out = np.zeros(data.shape, dtype=np.float64)\n    rows, cols = data.shape\n    uid = 1", "    out = np.zeros_like(data)\n    rows, cols = data.shape\n    uid = 1", 'Q1')
+M('C16', 'regions-window-input-dtype', 'zonal.py', "    area_window = np.zeros(shape=(n,), dtype=np.float64)", "    area_window = np.zeros(shape=(n,), dtype=data.dtype)", 'Q1')
+M('C16', 'regions-tolerance-always', 'zonal.py', "            if exact:\n                # integer rasters: same value means equal\n                is_close = src_window == val\n            else:\n                is_close = np.abs(src_window - val) <= (atol + rtol * np.abs(val))\n            neighbor_matches = np.where(is_close)[0]\n\n            if len(neighbor_matches) > 0:",
+  "            is_close = np.abs(src_window - val) <= (atol + rtol * np.abs(val))\n            neighbor_matches = np.where(is_close)[0]\n\n            if len(neighbor_matches) > 0:", 'Q2')
+M('C16', 'regions-flag-floating', 'zonal.py', "exact = bool(np.issubdtype(raster.data.dtype, np.integer))", "exact = bool(np.issubdtype(raster.data.dtype, np.floating))", 'Q2')
+M('C16', 'regions-slot2-mismatch', 'zonal.py', "                area_window[2] = out[min(y + 1, rows - 1), max(x - 1, 0)]\n                area_window[3] = out[max(y - 1, 0), x]\n                area_window[4] = out[min(y + 1, rows - 1), x]\n                area_window[5] = out[max(y - 1, 0), min(x + 1, cols - 1)]\n                area_window[6] = out[y, min(x + 1, cols - 1)]\n                area_window[7] = out[min(y + 1, rows - 1), min(x + 1, cols - 1)]  # noqa\n\n            else:\n                src_window[0] = data[y, max(x - 1, 0)]\n                src_window[1] = data[max(y - 1, 0), x]\n                src_window[2] = data[min(y + 1, rows - 1), x]\n                src_window[3] = data[y, min(x + 1, cols - 1)]\n\n                area_window[0] = out[y, max(x - 1, 0)]\n                area_window[1] = out[max(y - 1, 0), x]\n                area_window[2] = out[min(y + 1, rows - 1), x]\n                area_window[3] = out[y, min(x + 1, cols - 1)]\n\n            # check in",
+  "                area_window[2] = out[max(y - 1, 0), max(x - 1, 0)]\n                area_window[3] = out[max(y - 1, 0), x]\n                area_window[4] = out[min(y + 1, rows - 1), x]\n                area_window[5] = out[max(y - 1, 0), min(x + 1, cols - 1)]\n                area_window[6] = out[y, min(x + 1, cols - 1)]\n                area_window[7] = out[min(y + 1, rows - 1), min(x + 1, cols - 1)]  # noqa\n\n            else:\n                src_window[0] = data[y, max(x - 1, 0)]\n                src_window[1] = data[max(y - 1, 0), x]\n                src_window[2] = data[min(y + 1, rows - 1), x]\n                src_window[3] = data[y, min(x + 1, cols - 1)]\n\n                area_window[0] = out[y, max(x - 1, 0)]\n                area_window[1] = out[max(y - 1, 0), x]\n                area_window[2] = out[min(y + 1, rows - 1), x]\n                area_window[3] = out[y, min(x + 1, cols - 1)]\n\n            # check in", 'R1', first=True)
+M('C16', 'regions-clamp-wrong-axis', 'zonal.py', "                src_window[3] = data[y, min(x + 1, cols - 1)]\n\n                area_window[0] = out[y, max(x - 1, 0)]", "                src_window[3] = data[y, min(x + 1, rows - 1)]\n\n                area_window[0] = out[y, max(x - 1, 0)]", 'R1', first=True)
+M('C16', 'regions-uid-zero', 'zonal.py', "    rows, cols = data.shape\n    uid = 1\n", "    rows, cols = data.shape\n    uid = 0\n", 'R2')
+M('C16', 'regions-uid-not-advanced', 'zonal.py', "            else:\n                out[y, x] = uid\n                uid += 1\n\n    for y in range(0, rows):", "            else:\n                out[y, x] = uid\n\n    for y in range(0, rows):", 'R2')
+M('C16', 'regions-merge-break', 'zonal.py', "                        assigned_values_min = area_val\n\n                    else:", "                        assigned_values_min = area_val\n                        break\n\n                    else:", 'R3')
+M('C16', 'regions-merge-one-way', 'zonal.py', "                    else:\n                        # replace\n                        for y1 in range(0, rows):\n                            for x1 in range(0, cols):\n                                if out[y1, x1] == area_val:\n                                    out[y1, x1] = assigned_values_min\n", "                    else:\n                        pass\n", 'R3')
+M('C16', 'regions-replace-partial', 'zonal.py', "                        # replace\n                        for y1 in range(0, rows):\n                            for x1 in range(0, cols):\n                                if out[y1, x1] == assigned_values_min:", "                        # replace\n                        for y1 in range(0, y + 1):\n                            for x1 in range(0, cols):\n                                if out[y1, x1] == assigned_values_min:", 'R3')
+M('C16', 'regions-pass2-4-table-differs', 'zonal.py', "                src_window[1] = data[max(y - 1, 0), x]\n                src_window[2] = data[min(y + 1, rows - 1), x]\n                src_window[3] = data[y, min(x + 1, cols - 1)]\n\n                area_window[0] = out[y, max(x - 1, 0)]\n                area_window[1] = out[max(y - 1, 0), x]\n                area_window[2] = out[min(y + 1, rows - 1), x]\n                area_window[3] = out[y, min(x + 1, cols - 1)]\n\n            val = data[y, x]",
+  "                src_window[1] = data[max(y - 1, 0), x]\n                src_window[2] = data[max(y - 1, 0), x]\n                src_window[3] = data[y, min(x + 1, cols - 1)]\n\n                area_window[0] = out[y, max(x - 1, 0)]\n                area_window[1] = out[max(y - 1, 0), x]\n                area_window[2] = out[max(y - 1, 0), x]\n                area_window[3] = out[y, min(x + 1, cols - 1)]\n\n            val = data[y, x]", 'R1')
+T('C16', 'regions-labels-int64', 'zonal.py', "    out = np.zeros(data.shape, dtype=np.float64)\n    rows, cols = data.shape\n    uid = 1", "    out = np.zeros(data.shape, dtype=np.int64)\n    rows, cols = data.shape\n    uid = 1")
